@@ -42,11 +42,14 @@ MD_KINDS = {
     "res_ph": [["rbm_ph", "dict"], ["note", "str"]],
     "res_ud": [["epoch", "int"], ["unitary_dict", "int"]],
     "res_both": [["unitary_dict", "str"], ["rbm_am", "dict"]],
+    "res_am_falsy": [["rbm_am", "zero"], ["epoch", "int"]],
+    "res_ph_falsy": [["note", "str"], ["rbm_ph", "emptydict"]],
+    "res_ud_falsy": [["unitary_dict", "zero"]],
     "nonstr": [[7, "str"], ["epoch", "int"]],
     "nonstr_res": [[7, "str"], ["rbm_am", "int"]],
 }
 MD_WEIGHTS = [("empty", 2), ("flat", 5), ("nested", 4), ("tensor", 4), ("falsyvals", 1), ("res_am", 2), ("res_ph", 2),
-              ("res_ud", 2), ("res_both", 1), ("nonstr", 1), ("nonstr_res", 1)]
+              ("res_ud", 2), ("res_both", 1), ("res_am_falsy", 2), ("res_ph_falsy", 2), ("res_ud_falsy", 1), ("nonstr", 1), ("nonstr_res", 1)]
 
 
 def wchoice(rng, pairs):
